@@ -95,6 +95,26 @@ class GenLeaf(Leaf):
     __post_init__ = _post_init
 
 
+class OptLeaf(Sub):
+    """Optional parameters whose default is NOT None: an explicit None is a configured value of its own (it differs from
+    the default, is hashed, and has to survive a round trip)"""
+
+    i: Param[int]
+    od: Param[Optional[int]] = 10
+    of: Param[Optional[float]] = 0.25
+    os: Param[Optional[str]] = "dflt"
+    ob: Param[Optional[bool]] = True
+    op: Param[Optional[Path]] = Path("/dflt/p")
+    oe: Param[Optional[Color]] = Color.GREEN
+    ol: Param[Optional[List[int]]] = [1, 2]
+    odd: Param[Optional[Dict[str, int]]] = {"a": 1}
+    mo: Meta[Optional[int]] = 3
+    oo: Option[Optional[str]] = "o"
+    on: Param[Optional[int]] = None  # control: default None
+
+    __post_init__ = _post_init
+
+
 class Node(Sub):
     """Inner node: every kind of reference to other configurations"""
 
@@ -116,6 +136,21 @@ class GenNode(Sub):
     a: Param[Optional[Sub]] = None
     items: Param[List[Sub]] = []
     table: Param[Dict[str, Sub]] = {}
+    out: Meta[Path] = field(default_factory=PathGenerator("out.txt"))
+
+    __post_init__ = _post_init
+
+
+class GenGrid(Sub):
+    """Containers nested directly in containers, holding configurations (with generated paths when the elements are
+    GenLeaf / GenNode / GenGrid), plus its own generated path"""
+
+    k: Param[int] = 0
+    grid: Param[List[List[Sub]]] = []
+    groups: Param[Dict[str, List[Sub]]] = {}
+    rows: Param[List[Dict[str, Sub]]] = []
+    dd: Param[Dict[str, Dict[str, Sub]]] = {}
+    cube: Param[List[List[List[Sub]]]] = []
     out: Meta[Path] = field(default_factory=PathGenerator("out.txt"))
 
     __post_init__ = _post_init
@@ -190,6 +225,24 @@ class TaskNoGen(Task):
     execute = _execute
 
 
+class TaskGrid(Task):
+    """A task with nested containers of configurations at top level (and flat ones: same parameter names as the
+    positions inside the nested ones would produce)"""
+
+    ROLE = "task"
+    k: Param[int] = 0
+    a: Param[Optional[Config]] = None
+    items: Param[List[Sub]] = []
+    grid: Param[List[List[Sub]]] = []
+    groups: Param[Dict[str, List[Sub]]] = {}
+    rows: Param[List[Dict[str, Sub]]] = []
+    dd: Param[Dict[str, Dict[str, Sub]]] = {}
+    out: Meta[Path] = field(default_factory=PathGenerator("out.txt"))
+
+    __post_init__ = _post_init
+    execute = _execute
+
+
 class TaskOut(Task):
     """A task with task_outputs: submission returns a (new) configuration that depends on the task"""
 
@@ -235,10 +288,9 @@ class TaskOutPre(Task):
     execute = _execute
 
 
-for _c in (Leaf, GenLeaf, Node, GenNode, LoopA, LoopB, LW, LWGen, TaskPlain, TaskNoGen, TaskOut, TaskOutGen, TaskOutPre):
+ZOO_CLASSES = (Leaf, GenLeaf, OptLeaf, Node, GenNode, GenGrid, LoopA, LoopB, LW, LWGen, TaskPlain, TaskNoGen, TaskGrid, TaskOut,
+               TaskOutGen, TaskOutPre)
+for _c in ZOO_CLASSES:
     _c.ZOO = True  # set after class creation: found in the class __dict__ of exactly these classes
 
-CLASSES = {
-    c.__name__: c
-    for c in (Leaf, GenLeaf, Node, GenNode, LoopA, LoopB, LW, LWGen, TaskPlain, TaskNoGen, TaskOut, TaskOutGen, TaskOutPre)
-}
+CLASSES = {c.__name__: c for c in ZOO_CLASSES}
